@@ -223,7 +223,7 @@ class Check(object):
     def controls(self, *modules):
         """Negative controls (mxv/controls.py): each seeded model bug must be reported by TLC."""
         from . import controls
-        res = controls.run(modules)
+        res = controls.run(modules, tier=self.tier)
         lst = self.notes.setdefault("negative_controls", [])
         for r in res:
             lst.append({k: r[k] for k in ("module", "cfg", "override", "expected", "violated", "wall_s")})
